@@ -46,7 +46,8 @@ def enc14_table(ctx):
 
 def c07(ctx):
     mc_cc14(ctx)
-    edges_cc14(ctx, impls=("raw",))
+    p14 = edges_cc14(ctx, impls=("raw",))
+    run_script(ctx, sweep_roundtrip(ctx, variant_paths(p14), "cc14", 0, 1500), "roundtrip-in-every-explored-state")
     run_script(ctx, enc14_table(ctx), "encode-table-cc14")
     res, trace = run_script(ctx, gen.roundtrip_cc14(ctx.rng, ctx.q(6000, 60000)), "roundtrip-cc14")
     rows = []
@@ -92,7 +93,8 @@ def c11(ctx):
 
 def c10(ctx):
     mc_pn(ctx, with_run=True)
-    edges_pn(ctx, impls=("raw",))
+    ppn = edges_pn(ctx, impls=("raw",))
+    run_script(ctx, sweep_roundtrip(ctx, variant_paths(ppn), "pn", 0, 1500), "roundtrip-in-every-explored-state")
     res, trace = run_script(ctx, gen.roundtrip_pn(ctx.rng, ctx.q(6000, 60000)), "roundtrip-pn")
     run_script(ctx, gen.sweep_pn_values(ctx.rng, "pn", step=ctx.q(2, 1)), "value-sweep-pn")
     canary(ctx, trace, lambda rows, rng: _corrupt_group_out(rows, rng, ctx.rng.choice(["rtpn", "run"])))
